@@ -166,7 +166,7 @@ def generate(seed: int, tier: str = "quick") -> dict:
             t = _safe_tick(ct + rp.randint(-2000, 2000), sp)
             o = {"op": "uni.price_to_tick", "a": {"price": _s(_mid_price(t, quote[1], base[1]))}}
         elif kind == "reject":
-            r = rp.choice(["sell_too_much", "buy_too_much", "add_too_much", "remove_unknown", "lower_gt_upper_value"])
+            r = rp.choice(["sell_too_much", "buy_too_much", "add_too_much", "add_all_of_one_too_much_of_other", "remove_unknown", "lower_gt_upper_value"])
             if r == "sell_too_much":
                 o = {"op": "uni.sell", "a": {"amount": {"f": f"wallet:{B}", "x": "1.5"}}}
             elif r == "buy_too_much":
@@ -174,6 +174,15 @@ def generate(seed: int, tier: str = "quick") -> dict:
             elif r == "add_too_much":
                 lo, hi = rng_ticks()
                 o = {"op": "uni.add_by_tick", "a": {"lo": lo, "hi": hi, "base": {"f": f"wallet:{B}", "x": "3"}, "quote": {"f": f"wallet:{Q}", "x": "3"}, "where": where}}
+                n_created += 1
+            elif r == "add_all_of_one_too_much_of_other":
+                # (nearly) the whole balance of one token - the wallet's 1e-5 snap-to-zero zone - and more of the other
+                # than is held: whichever token the pool calls token0, a refused deposit must leave both wallets alone
+                where = "in"
+                lo, hi = rng_ticks()
+                near = rp.choice(["1", "0.999996", "1.000004", "0.99998"])  # never 0.99999: exactly on the snap threshold, a genuine discontinuity
+                xb, xq = (near, "3") if rp.random() < 0.5 else ("3", near)
+                o = {"op": "uni.add_by_tick", "a": {"lo": lo, "hi": hi, "base": {"f": f"wallet:{B}", "x": xb}, "quote": {"f": f"wallet:{Q}", "x": xq}, "where": where}}
                 n_created += 1
             elif r == "remove_unknown":
                 o = {"op": "uni.remove", "a": {"pos": {"lo": 887220 // sp * sp - sp, "hi": 887220 // sp * sp}}}
